@@ -194,6 +194,8 @@ def generate(rng, tier: str, index: int) -> dict:
                 c['k'] = 'group'  # `group start` is not a version-4 command; the one-line form goes through its `peer` prefix
     # the helper dies with an unterminated line (and possibly an open group) behind it and is respawned under the same name
     plan['crash'] = None if plan['sync_loss'] or not rng.chance(0.15) else {'group': rng.chance(0.4), 'cut': rng.randint(1, 50), 'exit_after': rng.choice([0.0, 0.05, 0.5])}
+    if plan['crash'] and rng.fork('crash-with-exit').chance(0.4):
+        plan['crash']['with_exit'] = True  # the helper is gone at the very instant its last lines become readable: they are still commands
     if plan['pipe'] and any(c['k'] == 'long' for c in cmds):
         # a very long line is echoed in the error reply (about 70 kB): the slow pipe must be able to drain it within the run
         plan['pipe']['capacity'] = max(plan['pipe']['capacity'], 200)
@@ -398,8 +400,16 @@ def execute(plan: dict) -> dict:
             # (under API version 4 a bare `announce route` is a complete command for every neighbor, not a member of the open group)
             pre += b'group start\nannounce route 10.79.1.0/24 next-hop 10.0.0.9 med 100\n'
         partial = b'peer * announce route 10.79.0.0/24 next-hop 10.0.0.9 med 100 community [ 65000:1 65000:2 ]'[: 20 + cr['cut']]
+        state['crash_api'] = len(w.api_log)
+        state['crash_pre'] = [ln for ln in pre.decode().split('\n') if ln]
         h.emit(pre + partial)
-        w.after(0.3 + cr['exit_after'], lambda: h.exit(1))
+        if cr.get('with_exit'):
+            # (what a dead writer left in a pipe is read in one go: the scripted small reads stop here; see DESIGN.md 0.7 for what
+            # happens when more than one read is needed after the death)
+            h.chunk_plan = []
+            h.exit(1)
+        else:
+            w.after(0.3 + cr['exit_after'], lambda: h.exit(1))
 
         def second_life() -> None:
             if h.generation == state['gen_before']:
@@ -416,6 +426,10 @@ def execute(plan: dict) -> dict:
     def check_crash() -> None:
         if 'respawn_lines' not in state:
             probes['not_respawned'] = 1
+            return
+        before = [_norm(c) for _, _, svc, c in w.api_log[state.get('crash_api', 0) : state['respawn_api']] if svc == 'h1']
+        if before[: len(state.get('crash_pre', []))] != [_norm(c) for c in state.get('crash_pre', [])]:
+            violations.append(viol('C14/executed-differs-from-written', f'the helper wrote {state.get("crash_pre")} (complete lines) and an unterminated one, then died{" at once" if plan["crash"].get("with_exit") else ""}: exabgp executed {before[:4]}', index=0, written=len(state.get('crash_pre', [])), executed=len(before)))
             return
         lines2 = [ln for _, ln in h.lines[state['respawn_lines'] :]]
         terms = [ln for ln in lines2 if ln in ('done', 'error')]
